@@ -131,6 +131,36 @@ FIRST_RUN_MISSED = {  # seeded changes the checks did NOT catch when first confr
     "C19-16": "no para nested in the list of another para",
     "C20-15": "beyond the bound: no gap of 9+ blanks (strings up to length 8-10 only)",
     "C20-16": "beyond the bound: no document longer than 4 096 bytes",
+    "C01-17": "child verdicts were only taken through validate.node; the parent is now also reached by a whole-tree walk, after an additionalMetadata sibling (C05 caught it)",
+    "C01-18": "the metadata rule (outside the table's grammar) was excluded; 0-3 children x three routes x empty / pre-filled list are now checked (C05 caught it)",
+    "C02-18": "content verdicts were only taken through validate.node; the three routes (validate.node, validate.tree, Rule.validate_rule) must now agree on a childless node of every element (C05 caught it)",
+    "C03-18": "as C02-18, for attribute verdicts (C05 caught it)",
+    "C04-17": "no known element name written in Clark notation / with a prefix among the unknown names",
+    "C04-18": "content was always a string; non-string content through the constructor and the setter was added",
+    "C05-17": "no unknown element whose name is a piece of the word 'metadata'",
+    "C05-18": "per-node verdicts came from validate.node (a fresh Rule per node); they are now also taken through Rule objects re-used for all nodes of one name, fail-fast call first",
+    "C07-17": "the exporters' optional level / parent arguments were never passed",
+    "C07-18": "the eml root only carried an attribute called k; attribute names that occur inside the exporter's boiler-plate were added",
+    "C08-17": "no failing call before the cases of a work item; an ill-formed import and an export that fails part-way now precede them",
+    "C09-17": "insertion indices were within [0, len]; every index from -len-4 to len+4 is now inserted at (list.insert semantics)",
+    "C09-18": "the path list handed to a query was not looked at afterwards",
+    "C10-17": "a Rule object that had just refused nodes (fail-fast) was never asked to validate its witness",
+    "C10-18": "witness trees carried no namespace prefix",
+    "C11-17": "extras were only written in prefix form; Clark-notation keys added through the API are in a base now",
+    "C12-17": "no failing copy before the cases of a work item (a chain deeper than the recursion limit is copied first now)",
+    "C12-18": "every listed child's parent link was intact; a variant clears one",
+    "C13-17": "the alphabet had no failing attach; an attach with a non-numeric index must leave bindings, links and lists alone",
+    "C13-18": "copy was not part of C13; after the histories the copy must show the source's bindings node for node, including a child that lost a prefix of its parent (C12 caught it)",
+    "C14-17": "only the current importer, and documents without id attributes; both importers now import a document with id attributes repeatedly",
+    "C15-17": "trees contained no node made by copy(); a variant replaces the root's children by their copies (C12 caught it)",
+    "C15-18": "trees were assembled by appending only; they are now also assembled with add_child(child, index) (C09 caught it)",
+    "C16-17": "no prefix declared deep inside a referenced element",
+    "C17-17": "is_allowed_child was not asked again after a refusal on the same Rule object",
+    "C17-18": "candidates never carried a parent link to another node",
+    "C18-17": "no comparison that raises before the comparisons that count",
+    "C18-18": "only roots were copied in C18 (C12 caught it)",
+    "C19-17": "no failing edit before the evaluation (C09 caught it)",
+    "C19-18": "all nodes had distinct node ids; the trees are now also built with one shared id",
 }
 NOT_DETECTED_BY_DESIGN = {"C19-5", "C09-8"}
 ids = sys.argv[1:] or sorted(os.listdir(os.path.join(HERE, "seeded")))
